@@ -38,6 +38,7 @@ def history_task(task, wdir, res):
         t0 = 1700000000
         stepping = bool(task.get("clock") == "stepping")
         clock_ms = [1700000500000]
+        clock_hi = [1700000500000]     # every lifetime starts ahead of all earlier ids (a restart behind them is C18's finding)
         if stepping:
             node.meta(f"clock auto {clock_ms[0]} 300")
         witness["clock"] = "stepping" if stepping else "real"
@@ -109,7 +110,10 @@ def history_task(task, wdir, res):
                     k += 1
                     if stepping and rng.random() < 0.35:
                         # the wall clock steps (NTP correction, VM resume): core timestamps are not monotone in append order
-                        clock_ms[0] += rng.choice([-7000, -3000, -1000, -1000, 2000, 60000])
+                        now = int(node.meta("clock peek").get("now") or 0)      # the scripted clock advances with every read
+                        clock_hi[0] = max(clock_hi[0], now)
+                        clock_ms[0] = max(now, clock_ms[0]) + rng.choice([-7000, -3000, -1000, -1000, 2000, 60000])
+                        clock_hi[0] = max(clock_hi[0], clock_ms[0])
                         node.meta(f"clock auto {clock_ms[0]} 300")
                         res.count("clock_steps")
                     c = rng.choice(ctxs)
@@ -128,8 +132,12 @@ def history_task(task, wdir, res):
                 if any(r_.get("plans") for r_ in results):
                     tier_update(lambda tr: tr if (tr == "mem" or tr.endswith("compacted")) else tr + "_or_compacted")
             elif op == "restart":
+                if stepping:
+                    clock_hi[0] = max(clock_hi[0], int(node.meta("clock peek").get("now") or 0))
                 node = lt.restart_clean()
                 if stepping:
+                    clock_ms[0] = clock_hi[0] + 5000
+                    clock_hi[0] = clock_ms[0]
                     node.meta(f"clock auto {clock_ms[0]} 300")
                 tier_update(flushed)
             if step % 2 == 1 or step == nsteps - 1:
